@@ -9,9 +9,13 @@ Oracle  : an independent nested-dict reference model (plain dict / list / scalar
           normaliser, written from the property statement and the class docstring; shares no code with cpppo.
 
 What the model takes a key to mean (statement + docstring, nothing from the implementation):
-  * a key is NAME ('.' NAME)* ; a run of k>=2 dots back-tracks k-1 levels lexically (skipped elements are not validated,
-    back-tracking past the root is a no-op); leading dots are ignored; NAME may carry one index: l[0], l[ 1], or a
-    computed index l[<path>] whose path is looked up at the level that holds the list.
+  * a key is NAME ('.' NAME)* ; every '..' back-tracks one element lexically (skipped elements are not validated,
+    back-tracking past the root is a no-op that uses up the pair of dots); a single dot left over at the root in front
+    of a longer path is ignored ('.a.b' == 'a.b'); NAME may carry one index: l[0], l[ 1], or a computed index l[<path>]
+    whose path is looked up at the level that holds the list.
+  * NOT defined by the statement but pinned by the repository (automata_test::test_regex, data[path+'.input'] with
+    path == ''): a single left-over dot in front of exactly ONE name N ('.a', '...a', 'a...b') denotes N.N.  The model
+    adopts that reading (lead decision; an earlier version of this oracle demanded 'a' and that was a false alarm).
   * NOT defined by the statement (class "silent": whatever the code does is accepted and only recorded): a single
     trailing dot ('a.'), keys that normalise to the root ('', '.', 'a..', '...'), whether an *empty* level is listed by
     key iteration, the meaning of keys(depth=n) beyond "a cut through the tree", which exception signals a failed
@@ -43,6 +47,9 @@ RULE = ("breadth-first search over sequences of mapping operations (set by item/
         "resolve to a stored node")
 BOUNDS = {}          # filled in below, once the alphabets are defined
 ASSUMPTIONS = [
+    "a key that reduces to ONE left-over leading dot followed by exactly one name N ('.a', '...a', 'a...b') denotes N.N: "
+    "taken from the implemented, self-consistent and test-pinned behaviour (automata_test::test_regex), not from the "
+    "statement, which is silent on it; '.a.b' denotes 'a.b'; '.l[0]' is left unspecified",
     "a dotdict has no state beyond the contents of its levels (__slots__ = ()), so equal canonical structure => equal "
     "future behaviour; every expanded state is nevertheless rebuilt by replaying its own history and validated",
     "values are created fresh for every operation (no user-made aliasing of one mutable value at two paths)",
@@ -54,7 +61,6 @@ ASSUMPTIONS = [
 RESERVED = frozenset(("clear copy get set items iteritems iterkeys itervalues listitems listkeys listvalues keys values "
                       "pop popitem setdefault update").split())
 
-K1 = "dots-then-single-name-resolved-as-name.name"
 K2 = "computed-dotted-index-final-segment:ValueError"
 K3 = "copy.copy-shares-levels-inside-list"
 K4 = "reserved-name-accepted-as-intermediate-level"
@@ -107,7 +113,15 @@ def _tokens(key):
 
 
 def parse(key):
-    """Lexical normalisation of a key.  cls: 'ok' | 'root' | 'trailing' | 'malformed'."""
+    """Lexical normalisation of a key.  cls: 'ok' | 'root' | 'trailing' | 'malformed' | 'unspecified'.
+
+    Every '..' removes the key element in front of it: while elements remain in front, one of the two dots stays behind
+    as the separator (so a run of k dots after n >= k elements removes k-1 of them); removing the LAST remaining element
+    takes both dots with it; at the root a further '..' is a no-op that uses up both dots.  What can be left over at
+    the root is therefore nothing, or ONE dot.  A left-over single dot in front of a longer path is ignored
+    ('.a.b' == 'a.b').  A left-over single dot in front of exactly one name N denotes N.N: the statement does not
+    say what that shape means, set/get/in/keys agree on this reading, and the repository pins it
+    (automata_test::test_regex reads data.input.input written as data[path+'.input'] with path == '')."""
     p = _parse_cache.get(key)
     if p is not None:
         return p
@@ -115,18 +129,24 @@ def parse(key):
     stack = []
     cls = "ok"
     n = len(toks)
+    lone_dot_at = None                        # index of the token that follows a left-over single dot at the root
     for i, t in enumerate(toks):
         if isinstance(t, int):
+            last = i == n - 1
             if i == 0:
-                continue                      # leading dots: ignored (any back-tracking happens at the root)
-            if i == n - 1:
-                if t == 1:
+                left = t                      # leading dots: all of them are "at the root"
+            elif t <= 1:
+                if last and t == 1:
                     cls = "trailing"
-                elif t >= 2:
-                    del stack[max(0, len(stack) - (t - 1)):]
                 continue
-            if t >= 2:
-                del stack[max(0, len(stack) - (t - 1)):]
+            elif t <= len(stack):
+                del stack[len(stack) - (t - 1):]          # t-1 elements go, one dot stays as the separator
+                continue
+            else:
+                left = t - len(stack) - 1     # len(stack) elements cost len(stack)+1 dots; the rest is at the root
+                del stack[:]
+            if left % 2 == 1 and not last:
+                lone_dot_at = i + 1
         else:
             m = _COMP.match(t)
             if m:
@@ -143,6 +163,12 @@ def parse(key):
                 stack.append((t, None))
             else:
                 stack.append((t, None))
+            if lone_dot_at == i and i == n - 2 and toks[n - 1] == 0:
+                # a single dot, then exactly one name, then the end of the key
+                if stack[-1][1] is None and cls == "ok":
+                    stack.append(stack[-1])   # '.N' denotes N.N (test-pinned reading)
+                else:
+                    cls = "unspecified"       # '.l[0]': nothing defines or pins it
     if cls == "ok" and not stack:
         cls = "root"
     if "[" in key:
@@ -158,16 +184,6 @@ def parse(key):
     p = Parsed(key, cls, tuple(stack), shape)
     _parse_cache[key] = p
     return p
-
-
-def k1_shape(p):
-    """dots, then one bare top-level name: '.a', '...a', 'a...b' (the model reads all of them as that name)."""
-    if p.cls != "ok" or len(p.comps) != 1 or p.comps[0][1] is not None:
-        return None
-    n = p.comps[0][0]
-    if p.raw != n and p.raw.endswith("." + n):
-        return n
-    return None
 
 
 def k2_shape(p):
@@ -371,13 +387,13 @@ QUICK_PATHS = [
     # plain
     "a", "b", "a.b", "a.c", "a.b.c",
     # leading dots / back-tracking (model meaning in the comment)
-    ".a",            # a     (K1 shape)
+    ".a",            # a.a   (single dot + single name: test-pinned reading)
     ".a.b",          # a.b
     "..a",           # a
     "a..b",          # b
     "a.b..c",        # a.c
     "a.b.c...b",     # a.b
-    "a...b",         # b     (past the root; K1 shape)
+    "a...b",         # b.b   (past the root, one dot left over + single name)
     "a.b..",         # a
     # lists of levels
     "l", "l[0].a", "l[1]", "l[1].b", "l[2]", "l[l[0].a].b", "l[0]..b", "l[10].a",
@@ -644,17 +660,12 @@ def _alts_refuse(before_c, residue_c):
     return alts
 
 
-def m_expect(before_c, op, k1_as=None, reserved_intermediate=True):
-    """-> (alternatives | None, info).  k1_as: evaluate with the key re-read as 'name.name' (defect hypothesis)."""
+def m_expect(before_c, op, reserved_intermediate=True):
+    """-> (alternatives | None, info)."""
     kind = op[0]
     tree = m_uncanon(before_c)
     info = {"reason": None}
-
-    def path_of(raw):
-        p = parse(raw)
-        if k1_as:
-            return parse(k1_as + "." + k1_as)
-        return p
+    path_of = parse
 
     if kind in ("set", "setattr", "setdefault", "chainattr", "chainitem"):
         p = path_of(op[1])
@@ -838,12 +849,6 @@ def check_transition(before_c, history, op, outcomes=None):
     msg = "%s on %s: expected %s; real %s, tree %s" % (
         describe(op), show(before_c), " | ".join(_show_alt(a) for a in alts),
         "returned %s" % show(ret_c) if how == "ok" else "raised %s(%s)" % (res[1], res[2]), show(after_c))
-    if len(op) > 1 and op[0] != "update" and op[0] != "ctor":
-        n = k1_shape(parse(op[1]))
-        if n:
-            alts2, _ = m_expect(before_c, op, k1_as=n)
-            if alts2 is not None and _match(alts2, how, after_c, ret_c):
-                return [(K1, msg + "  [== the same operation on %r]" % (n + "." + n))], None, after_c != before_c, True
     alts4, info4 = m_expect(before_c, op, reserved_intermediate=False)
     if alts4 is not None and _match(alts4, how, after_c, ret_c):
         # the only difference between the two expectations is that a reserved name may become an intermediate level
@@ -1010,13 +1015,7 @@ def check_lookup(d, tree, p, outcomes=None, stats=None):
 
 
 def _reclass(bad, d, tree, p, q, item):
-    """Give the two defects seen on the unchanged tree their own precise kinds (everything else keeps its kind)."""
-    n = k1_shape(q)
-    if n:
-        alt = m_lookup(tree, ((n, None), (n, None)))
-        same = (alt is MISSING and item[0] == "exc") or (alt is not MISSING and item[0] == "ok" and r_canon(item[1]) == m_canon(alt[1]))
-        if same:
-            return [(K1, "%s  [d[%r] behaves as d[%r]]" % (bad[0][1], p, n + "." + n))]
+    """A computed dotted index as the final segment that dies in tuple unpacking keeps its own precise kind (fixed in ed02f6b)."""
     if k2_shape(q) and item[0] == "exc" and item[1] == "ValueError" and "unpack" in item[2]:
         return [(K2, bad[0][1])]
     return bad
@@ -1430,7 +1429,9 @@ def _notes(total):
                    "-> d['fromkeys'] == %r, d.fromkeys is %s" % (d["fromkeys"], type(d.fromkeys).__name__))
     except Exception as exc:
         total.note("probe: d['fromkeys'] = 1 raises %r" % (exc,))
-    total.note("probe: data[path+'.name'] with path == '' (used by server/enip/parser.py predicates) is a K1-shaped key")
+    total.note("oracle correction: a single left-over dot before exactly one name N is modelled as N.N ('.a' == 'a.a', "
+               "'a...b' == 'b.b'), the behaviour cpppo's own machines rely on (data[path+'.input'] with path == '', pinned "
+               "by automata_test::test_regex); the statement does not define that shape, so demanding 'a' was a false alarm")
 
 
 def guards(acc, ctx):
